@@ -109,4 +109,17 @@ def scenarios():
     # retransmission flag stays set: the acknowledged EOF is sent again and the limit is hit
     add("c17-eof-retransmitted-after-ack", cfg(limit=2, file=[1, 2, 0]),
         [S, S, S, S, Dr(), Dr(), Dr(), T(2), ST, Dr(), R, Ds(), S, R, T(2), ST], [])
+    # C17/C19 (found by TLC, MC suspS): a suspend/resume (or a bare resume) issued when an ACK-timer expiry is due
+    # but not yet serviced: restart() counts the expiry but forgets the retransmission it owes
+    add("c17-resume-swallows-retransmission", cfg(limit=2, file=[1, 2, 0]),
+        [S, S, S, S, Dr(), Dr(), Dr(), Drop("c2r"), T(2), SC("Suspend"), SC("Resume"), S, Drop("c2r"), T(2), ST], [])
+    # C17 (found by TLC, MC suspR): the ACK(EOF) arrives exactly when the ACK timer expires; pause() latches
+    # `occurred`, and the next (inactivity) timeout retransmits the acknowledged EOF with the old count
+    add("c17-ack-at-expiry-latches-occurred", cfg(limit=2, file=[1, 2, 0]),
+        [S, S, S, S, Dr(), Dr(), Dr(), Dr(), R, RC("Suspend"), T(2), Ds(), T(4), ST, S, Dr(), T(2), ST], [])
+    # C03 (found by TLC, MC prompt): a Prompt(NAK) answered after the delivery completed starts the NAK timer in the
+    # Finished state, where nothing services it: until_timeout() stays 0 and the task spins on sleep(0)
+    add("c03-late-prompt-nak-spins", cfg(limit=2, file=[1, 2, 0]),
+        [SC("PromptNak"), S, S, S, S, S, Dr(), Dr(), Dr(), Dr(), Dr(), R, R, R, Ds(), Ds(), Ds(), S, Drop("c2r"),
+         T(2), RT, R, Ds(), T(1), RT], [])
     return out
